@@ -8,16 +8,21 @@ use crate::plan::PlanBH;
 use crate::tabledrv::{TableDrv, TW_GENERAL};
 use crate::util::{Json, Rng};
 
-pub const C06_ELEMS: [&str; 7] = ["P8", "T24", "Z", "Z8", "B1", "L200", "B3"];
+pub const C06_ELEMS: [&str; 9] = ["P8", "T24", "Z", "Z8", "B1", "L200", "B3", "L600", "L4K"];
 
-/// HashTable of 2^18..2^20 buckets holding a few dozen elements (size-gated paths, wrap-around at the table end).
+/// HashTable of 2^18..2^20 (one time in four: 2^21..2^26) buckets holding a few dozen elements (size-gated paths, wrap-around at the table end).
 fn huge_scenario<E: Elem>(c: &mut Ctx, rng: &mut Rng) {
     use crate::plan::Plan;
-    let lg = *rng.pick(&[18u32, 18, 19, 20]);
+    let mut lg = if rng.chance(1, 4) && !c.is_miri() { *rng.pick(&[21u32, 22, 23, 23, 24, 24, 25, 26]) } else { *rng.pick(&[18u32, 18, 19, 20]) };
+    while (std::mem::size_of::<E>().max(1) + 1) << lg > (3usize << 30) {
+        lg -= 1;
+    }
     let cap = (1usize << lg) / 8 * 7;
     let plan = *rng.pick(&[Plan::Tail, Plan::Tail, Plan::Max, Plan::Mixed, Plan::Ident, Plan::SamePos]);
     let mut d: TableDrv<E> = TableDrv::new(PlanBH::new(plan, rng.next()), 48, cap);
     d.max_live = 60;
+    d.validate_every = if lg >= 25 { 3 } else if lg >= 22 { 2 } else { 1 };
+    c.max("max_buckets_log2_huge", lg as u64);
     let mut desc = d.describe("C06 very large sparse table");
     desc.set("buckets_log2", Json::i(lg));
     c.describe(desc);
